@@ -29,8 +29,9 @@ const VERLOCK: [u32; 4] = [0, 2, 0x01020304, 0xffffffff];
 fn txid(k: usize) -> [u8; 32] {
     let mut t = [0u8; 32];
     for (i, x) in t.iter_mut().enumerate() {
-        *x = (i as u8).wrapping_mul(3).wrapping_add(17 * (k as u8 + 1));
+        *x = (i as u8).wrapping_mul(3).wrapping_add(17u8.wrapping_mul((k as u8).wrapping_add(1)));
     }
+    t[31] ^= (k >> 8) as u8;
     t
 }
 
@@ -46,7 +47,7 @@ fn base_tx(n_in: usize, n_out: usize, seqs: &[u32], other_scripts: bool) -> RTx 
         version: 0x01020304,
         locktime: 0x0a0b0c0d,
         inputs: (0..n_in)
-            .map(|k| RIn { txid_wire: txid(k), vout: 0x0100 + k as u32, script: if other_scripts { vec![0x01, 0x40 + k as u8, 0x51] } else { vec![] }, sequence: seqs[k] })
+            .map(|k| RIn { txid_wire: txid(k), vout: 0x0100 + k as u32, script: if other_scripts { vec![0x01, 0x40u8.wrapping_add(k as u8), 0x51] } else { vec![] }, sequence: seqs[k] })
             .collect(),
         outputs: (0..n_out).map(|k| ROut { value: 0x0102030405060700 + k as u64, script: if k % 2 == 0 { p2pkh(k as u8) } else { vec![0x6a, 0x02, 0xbe, 0xef] } }).collect(),
     }
@@ -317,6 +318,20 @@ fn common_spaces(prop: &'static str, flags: [u32; 6], tier: Tier, other_scripts:
             let tx = base_tx(n_in, n_out, &seqs, other_scripts);
             let sub = p2pkh(0x35);
             check_preimage(prop, &Q { tx: &tx, idx, subscript: &sub, value: 0x0807060504030201, flag: flags[c[1] as usize] }, acc, case);
+        }));
+    }
+    // many inputs / outputs: counts well beyond the shape grid, signed index first / interior / last, six flags
+    {
+        let counts: Vec<(usize, usize)> = vec![(16, 1), (30, 30), (33, 2), (64, 65), (100, 3), (253, 1), (1, 253), (300, 300)];
+        let nc = counts.len() as u64;
+        v.push(Space::new("many-inputs-outputs", nc * 4 * 6, move |case, acc| {
+            let c = coords(case.idx, &[nc, 4, 6]);
+            let (n_in, n_out) = counts[c[0] as usize];
+            let idx = [0usize, n_in / 2, n_in.saturating_sub(2), n_in - 1][c[1] as usize];
+            let seqs: Vec<u32> = (0..n_in).map(|k| 0xffff0000u32.wrapping_add(k as u32 * 7)).collect();
+            let tx = base_tx(n_in, n_out, &seqs, other_scripts);
+            let sub = p2pkh(0x36);
+            check_preimage(prop, &Q { tx: &tx, idx, subscript: &sub, value: 12345, flag: flags[c[2] as usize] }, acc, case);
         }));
     }
     // relations between inputs: three inputs whose txid / vout / sequence are each drawn from {A, B}
